@@ -13,8 +13,9 @@ def run_c11(ctx):
     ctx.rule = ("make_srep at clock values from the epoch to beyond year 2200 incl. sub-second boundaries "
                 "(x.000000000, x.000000999, x.000001000, x.999999999), both versions, impl vs model vs independent "
                 "arithmetic; replies of a running in-process server bracketed by the harness clock; non-trivial = "
-                "distinct clock value with a non-zero sub-second part")
-    vlib.prepare(ctx)
+                "distinct clock value with a non-zero sub-second part; the real binary under a wall-clock shim stepped by "
+                "0 / +3600 / -7200 / +30 s")
+    vlib.prepare(ctx, need_bins=True)
     r = ctx.rng
     secs_grid = [0, 1, 59, 86399, 86400, 2**31 - 1, 2**31, 2**32 - 1, 2**32, 1700000000, 4102444800, 7258118400,
                  253402300799, 253402300800, 2**40, 2**44 - 1]
@@ -131,6 +132,7 @@ def run_c11(ctx):
             ctx.violation("property", "a reply carries a midpoint later than the harness clock after it was received", rep); continue
         ctx.nontriv("resend:" + sess[1])
         ctx.traces_validated += 1
+    wall_clock_steps(ctx)
     proof_verdict(ctx)
 
 
@@ -139,7 +141,7 @@ def run_c10(ctx):
                 "(public key) and hashlib (SRV); certificates for sequences of versions from ONE LongTermKey object verify "
                 "under the right context only; repeated in-process server starts with one seed; non-trivial = distinct "
                 "seed, or a certificate sequence of length >= 2")
-    vlib.prepare(ctx)
+    vlib.prepare(ctx, need_bins=True)
     r = ctx.rng
     seeds = [bytes.fromhex("9d61b19deffd5a60ba844af492ec2cc44449c5697b326919703bac031cae7f60"),
              bytes.fromhex("4ccd089b28ff96da9db6c346ec114e0f5b8a319f35aba624da8cf6ed4fb8a6fb"),
@@ -213,7 +215,92 @@ def run_c10(ctx):
         want = ed25519.secret_to_public(bytes.fromhex(seed)).hex()
         if ps != {want}:
             ctx.violation("property", "server started with seed %s announces %s, RFC 8032 says %s" % (seed[:16], ps, want), {"cmd": "ltk", "line": "ltk " + seed})
+    every_worker_has_the_identity(ctx)
     proof_verdict(ctx)
+
+
+def wall_clock_steps(ctx):
+    """midpoint = the wall clock WHEN THE BATCH IS SIGNED, also after the wall clock was stepped while
+    the server runs (operator / NTP step, VM resume): the real binary runs under an LD_PRELOAD shim
+    (harness/clockshim.c) that shifts CLOCK_REALTIME by the number of seconds in a file; the check steps
+    it by 0, +3600, -7200, +30 s and requires every reply's MIDP within the radius of (now + step)"""
+    import os, shutil, socket, subprocess, tempfile, time
+    from props import process as procmod
+    so = os.path.join(vlib.BUILD, "clockshim.so")
+    src = os.path.join(vlib.VERIF, "harness", "clockshim.c")
+    if not os.path.exists(so) or os.path.getmtime(so) < os.path.getmtime(src):
+        rc = subprocess.run(["cc", "-shared", "-fPIC", "-O1", "-o", so, src, "-ldl"], capture_output=True, text=True)
+        if rc.returncode != 0:
+            ctx.note("clock shim could not be built (%s): wall-clock steps not exercised" % rc.stderr[:200])
+            return
+    workdir = tempfile.mkdtemp(prefix="c11", dir=vlib.BUILD)
+    offf = os.path.join(workdir, "offset")
+    open(offf, "w").write("0")
+    srv = procmod.Server({"num_workers": 1}, workdir=workdir, extra_env={"LD_PRELOAD": so, "VERIF_CLOCK_OFFSET_FILE": offf})
+    try:
+        if not srv.wait_ready():
+            ctx.violation("property", "server under the clock shim did not start serving", {"cmd": "clockstep", "log": srv.log()[-800:]})
+            return
+        for step in (0, 3600, -7200, 30):
+            with open(offf, "w") as f:
+                f.write(str(step))
+            for proto in ("Google", "RfcDraft13"):
+                nonce = os.urandom(64 if proto == "Google" else 32)
+                req = rt.mk_classic(nonce) if proto == "Google" else rt.mk_ietf(nonce, 1024)
+                s = socket.socket(socket.AF_INET, socket.SOCK_DGRAM); s.settimeout(4.0)
+                t0 = time.time()
+                try:
+                    s.sendto(req, ("127.0.0.1", srv.port)); reply = s.recv(4096)
+                except (socket.timeout, OSError):
+                    reply = None
+                t1 = time.time()
+                s.close()
+                ctx.evaluations += 1
+                rep = {"cmd": "clockstep", "step": step, "proto": proto}
+                if reply is None:
+                    ctx.violation("property", "no reply after the wall clock was stepped by %d s" % step, rep); continue
+                payload = reply if proto == "Google" else reply[12:]
+                f_ = dict(rt.decode(payload)); sr = dict(rt.decode(f_["SREP"]))
+                midp = struct.unpack("<Q", sr["MIDP"])[0]; radi = struct.unpack("<I", sr["RADI"])[0]
+                unit = 10**6 if proto == "Google" else 1
+                lo, hi = (t0 + step) * unit - radi - unit, (t1 + step) * unit + radi + unit
+                if not (lo <= midp <= hi):
+                    ctx.violation("property", "wall clock stepped by %d s: signed MIDP %d (%s) is %.1f s away from the clock reading at signing time (radius %d)"
+                                  % (step, midp, proto, abs(midp / unit - (t0 + step)), radi // unit), dict(rep, midp=midp, t0=t0, t1=t1))
+                else:
+                    ctx.nontriv("clockstep:%d:%s" % (step, proto))
+                    ctx.traces_validated += 1
+    finally:
+        srv.stop()
+        shutil.rmtree(workdir, ignore_errors=True)
+
+
+def every_worker_has_the_identity(ctx):
+    """the real server binary with several workers (they share one configuration object): every worker
+    announces the RFC 8032 public key of the seed, and replies obtained from many source ports (which
+    SO_REUSEPORT spreads over the workers) all carry a certificate that verifies under that key"""
+    import re, tempfile, shutil
+    from props import process as procmod
+    workdir = tempfile.mkdtemp(prefix="c10", dir=vlib.BUILD)
+    nw = 4
+    srv = procmod.Server({"num_workers": nw}, workdir=workdir)
+    rep = {"cmd": "workers", "num_workers": nw}
+    try:
+        if not srv.wait_ready():
+            ctx.violation("property", "server with %d workers did not start serving" % nw, dict(rep, log=srv.log()[-800:]))
+            return
+        res = procmod.closed_loop(srv.port, ctx.seed * 7 + 3, 24, 2)
+        pairs = [(p, rq, reps[0]) for p, rq, reps, _ in res if p != "EXTRA" and len(reps) == 1]
+        ctx.evaluations += len(pairs)
+        procmod.verify_pairs(ctx, pairs, rep, "replies of a %d-worker server" % nw)
+        keys = set(re.findall(r"[Ll]ong-term public key[^0-9a-f]*([0-9a-f]{64})", srv.log()))
+        if keys and keys != {procmod.PK}:
+            ctx.violation("property", "workers announce public keys %s, the RFC 8032 key of the seed is %s" % (sorted(keys), procmod.PK), dict(rep, log=srv.log()[-1500:]))
+        elif pairs:
+            ctx.nontriv("workers:%d:%d" % (nw, len(pairs)))
+    finally:
+        srv.stop()
+        shutil.rmtree(workdir, ignore_errors=True)
 
 
 def replay(ctx, rep):
